@@ -195,3 +195,24 @@ func retryTagFor(part []byte, v protocol.Version, cands []protocol.ConnectionID)
 	}
 	return protocol.ConnectionID{}, false
 }
+
+// craftTinyLong: an Initial or Handshake packet too short to remove header protection from.
+func craftTinyLong(k knowledge, r *vh.Rand, typ protocol.PacketType) []byte {
+	hdr := &wire.ExtendedHeader{}
+	hdr.Type = typ
+	hdr.Version = k.version
+	hdr.DestConnectionID = k.cSCID
+	hdr.SrcConnectionID = k.cDCID
+	if k.hasS {
+		hdr.SrcConnectionID = k.sSCID
+	}
+	n := 1 + r.Intn(12)
+	hdr.PacketNumberLen = protocol.PacketNumberLen1
+	hdr.Length = protocol.ByteCount(n)
+	b, err := hdr.Append(nil, k.version)
+	if err != nil {
+		return nil
+	}
+	// Append wrote a 1-byte packet number that counts towards Length
+	return append(b, r.Bytes(n-1)...)
+}
